@@ -92,6 +92,11 @@ def runHtsLine (cache : VoiceCache) (idx : Nat) (toks : Array String) : IO Strin
   let pv ← getVoice cache path
   match pv with
   | .ok voice =>
+    if op == "htsmeta" && toks.getD 2 "" == "loaderr" then
+      -- a file the reader accepts as well-formed, which the implementation refused to load
+      return (({ corr := some "implementation rejects a file the Lean reader accepts",
+                 oracle := some s!"a well-formed voice file failed to load: {toks.getD 3 "?"}", nontriv := true,
+                 cls := "load-error" } : Verdict).render idx op)
     let p : P Verdict := if op == "hts" then Drv.HtsOp.runHts voice else Drv.HtsOp.runMeta voice
     match p.run (toks, 2) with
     | .ok (v, _) => pure (v.render idx op)
